@@ -6,7 +6,11 @@
 //!             channel order) -> the log is replayed through the model (RunC18.v);
 //!          0: they dispatch freely at the same time -> judged by the oracle only
 //!   closure kinds: 0 returns at once, 1 yields arg times, 2 sleeps arg ms, 3 panics,
-//!                  4 a UDP round trip on the worker's runtime, 5 sleeps 40 ms (to be cancelled)
+//!                  4 a UDP round trip on the worker's runtime, 5 sleeps 40 ms (to be cancelled),
+//!                  6 panics synchronously, before it has returned its future,
+//!                  7 blocks the worker thread for arg ms (std::thread::sleep, no timer); the dispatching
+//!                    thread waits until it has started, so that what it dispatches next piles up in the
+//!                    channel and is picked up by the worker in one poll of its loop (bursts of > 61)
 //!   join_mode 0: join as soon as the dispatching threads are done; 1: first wait for every
 //!             receiver; 2: sleep 3 ms first
 //!   broken_driver: the workers' proactor cannot poll -> a worker panics when it goes idle
@@ -130,6 +134,7 @@ async fn body(world: Arc<World>, h: u64, kind: u64, arg: u64) -> u64 {
             compio_runtime::time::sleep(Duration::from_millis(40)).await;
             note(&world);
         }
+        7 => std::thread::sleep(Duration::from_millis(arg)),
         _ => {}
     }
     world.ev(3, h, 1);
@@ -154,7 +159,7 @@ fn run(case: &[u64]) -> Result<Vec<u64>, BadCase> {
         let mut p = Vec::new();
         for _ in 0..n {
             let o = c.take_n(2)?;
-            if o[0] > 5 || o[1] > 50 {
+            if o[0] > 7 || o[1] > 200 {
                 return Err(BadCase);
             }
             p.push((total, o[0], o[1]));
@@ -162,7 +167,7 @@ fn run(case: &[u64]) -> Result<Vec<u64>, BadCase> {
         }
         progs.push(p);
     }
-    if c.i != c.v.len() || total > 64 {
+    if c.i != c.v.len() || total > 260 {
         return Err(BadCase);
     }
     let world = Arc::new(World {
@@ -193,7 +198,18 @@ fn run(case: &[u64]) -> Result<Vec<u64>, BadCase> {
                 barrier.wait();
                 for (h, kind, arg) in prog {
                     let w2 = world.clone();
-                    let f = move || body(w2, h, kind, arg);
+                    let f = move || {
+                        if kind == 6 {
+                            // the closure itself panics, before any future exists
+                            let w = worker_index();
+                            w2.starts[h as usize].fetch_add(1, Ordering::SeqCst);
+                            w2.seen[h as usize].lock().unwrap().push(w);
+                            w2.ev(2, h, w);
+                            w2.ev(3, h, 0);
+                            panic!("scripted synchronous closure panic");
+                        }
+                        body(w2, h, kind, arg)
+                    };
                     if locked {
                         let mut g = world.log.lock().unwrap();
                         let r = disp.dispatch(f);
@@ -204,6 +220,13 @@ fn run(case: &[u64]) -> Result<Vec<u64>, BadCase> {
                         let r = disp.dispatch(f);
                         world.ev(1, h, r.is_ok() as u64);
                         rxs.push((h, r.ok()));
+                    }
+                    if kind == 7 && rxs.last().map(|x| x.1.is_some()).unwrap_or(false) {
+                        // wait until the worker is inside the blocking closure
+                        let t0 = std::time::Instant::now();
+                        while world.starts[h as usize].load(Ordering::SeqCst) == 0 && t0.elapsed() < WATCHDOG {
+                            std::thread::sleep(Duration::from_micros(100));
+                        }
                     }
                 }
                 rxs
@@ -230,9 +253,13 @@ fn run(case: &[u64]) -> Result<Vec<u64>, BadCase> {
             }
         };
         if join_mode == 1 && !broken {
+            // nothing but the workers themselves makes progress here: no later dispatch, no join yet.
+            // One deadline for all receivers (a stranded closure shows as outcome 3).
+            let deadline = std::time::Instant::now() + WATCHDOG + WATCHDOG;
             for (h, rx) in rxs.iter_mut() {
                 if let Some(rx) = rx.take() {
-                    outcomes[*h as usize] = collect(*h, compio_runtime::time::timeout(WATCHDOG, rx).await);
+                    let left = deadline.saturating_duration_since(std::time::Instant::now()).max(Duration::from_millis(20));
+                    outcomes[*h as usize] = collect(*h, compio_runtime::time::timeout(left, rx).await);
                 }
             }
         } else if join_mode == 2 {
